@@ -37,6 +37,10 @@ TREE_CATALOGUE = [
     ("R15", "switch on an array of integers, in a packet", {"net/client": '<packet family="Talk" action="Request"><array name="cs" type="char" length="2"/><switch field="cs"><case value="1"><field name="x" type="char"/></case></switch></packet>'}),
     ("R11", "hardcoded string longer than its declared length 0", {"net": '<struct name="U"><field type="string" length="0">x</field><field name="a" type="char"/></struct>'}),
     ("R11", "named hardcoded string longer than length 0, inside a chunked section", {"pub": '<struct name="U"><chunked><field name="t" type="string" length="0" padded="true">ab</field></chunked></struct>'}),
+    ("R16", "numeric case label for a NAMED enum value above 256", {"net": '<enum name="Big" type="short"><value name="Low">1</value><value name="High">300</value></enum><struct name="U"><field name="b" type="Big"/><switch field="b"><case value="300"><field name="x" type="char"/></case></switch></struct>'}),
+    ("R16", "numeric case label for a named enum value (small)", {"pub": '<struct name="U"><field name="c" type="Color"/><switch field="c"><case value="1"><field name="x" type="char"/></case></switch></struct>'}),
+    ("R4", "length refers to an ordinary field, not a <length>", {"net": '<struct name="U"><field name="n" type="char"/><field name="s" type="string" length="n"/></struct>'}),
+    ("R4", "length refers to an ordinary field, inside a case of a packet", {"net/server": '<packet family="Talk" action="Reply"><field name="k" type="char"/><switch field="k"><case value="1"><field name="n" type="short"/><array name="xs" type="char" length="n"/></case></switch></packet>'}),
     ("R14", "enum underlying type is a string", {"net": '<enum name="E3" type="string"><value name="A">1</value></enum><struct name="U"><field name="e" type="E3"/></struct>'}),
     ("R14", "enum underlying type is itself", {"net": '<enum name="E3" type="E3"><value name="A">1</value></enum><struct name="U"><field name="e" type="E3"/></struct>'}),
     ("R14", "enum underlying type unknown", {"pub": '<enum name="E3" type="word"><value name="A">1</value></enum><struct name="U"><field name="e" type="E3"/></struct>'}),
